@@ -5,9 +5,17 @@ FUNCS = ["ILLsymboltab_create", "ILLsymboltab_register", "ILLsymboltab_delete", 
 
 def sym(k, cap, tier, timeout):
     return Group("sym/map%d_c%d" % (k, cap), "symtab_map.c", tus=["symtab.c", "allocrus.c", "util.c"], model=MODEL, defines=["K=%d" % k, "CAP0=%d" % cap], dfcc=False, unwind=14, kind="bounded", timeout=timeout,
-                 flags=["--no-malloc-may-fail"], tier=tier,
+                 flags=["--no-malloc-may-fail"], tier=tier, slice=True,
                  bound="every history of at most %d operations (register / delete / lookup) over 5 names of length <= 2, from a table created with capacity %d (entry-table growth with re-hashing and string-pool growth, %d bytes, happen inside the bound); all loops completely unwound" % (k, cap, 5 * cap),
                  must_fail=["reach_end", "reach_grown"], functions=FUNCS, props=["C06", "C07", "C11", "C17"])
 
 
-GROUPS = [sym(3, 1, "thorough", 1200), sym(4, 1, "thorough", 3000), sym(5, 2, "thorough", 6000)]
+def scen(n, what):
+    return Group("sym/scenario%d" % n, "symtab_map.c", tus=["symtab.c", "allocrus.c", "util.c"], model=MODEL, defines=["SCENARIO=%d" % n, "CAP0=1"], dfcc=False, unwind=14, kind="bounded", timeout=900,
+                 flags=["--no-malloc-may-fail"], bound="ONE fixed history of 5 operations from a table of capacity 1 (" + what + "); the whole name->entry view is compared with a reference set after every operation; loops completely unwound",
+                 must_fail=["reach_end", "reach_grown"], functions=FUNCS, props=["C06", "C07", "C11", "C17"])
+
+
+GROUPS = [scen(1, "register ab, ba, a: the second name misses the 5-byte string pool by exactly its terminating NUL"), scen(2, "register a, b, ab, then lookups: the entry table grows twice with re-hashing"),
+          scen(3, "register a, b, ba; delete the last entry, delete another entry: index cache invalidation"),
+          sym(3, 1, "thorough", 3000), sym(4, 1, "thorough", 6000)]
